@@ -171,3 +171,26 @@ check('C18', TV,
       'for the cut-off rows. The real SOC solver is used only in the concrete layer.',
       'SMT stage lemmas (QF_LRA/QF_NRA) on the real to_socp() matrix + ground rational accuracy bound',
       'DESIGN.md section 4 C18')
+
+check('C03', TV,
+      'For each dro model of the family the real dro.Model.do_math() output P is read with exact rationals and the '
+      'event-wise decisions are identified through the real DecVar.get(). With Lemma J a distribution is a weight vector on '
+      '(scenario, support vertex) pairs and the ambiguity set (probability set, per-scenario supports, perspective-scaled '
+      'expectation sets on events) a polytope W whose vertices are enumerated exactly; z3 decides for ALL P-feasible points '
+      'that no vertex distribution makes the expected objective exceed the epigraph variable or an E-constraint positive, '
+      'and that plain constraints hold at every scenario and support vertex (QF_LRA with ite-max for piecewise integrands). '
+      'Layer B: for the real solve() point the weights are symbolic (no enumeration of W).',
+      'Trusted: Lemma J and Lemma V (stated), z3, oracle reading of the ambiguity set. Polyhedral supports / expectation / '
+      'probability sets only; KL/entropy sets and norm-2 sets are outside.',
+      'SMT translation validation (QF_LRA inclusion) of the compiled DRO reformulation against vertex distributions',
+      'DESIGN.md section 4 C03')
+
+check('C04', TV,
+      'Exactness of the DRO reformulation: per block of the real compiled program the exists-forall LRA query "a decision '
+      'that satisfies every row for every vertex distribution / scenario / support vertex but admits no completion of the '
+      'block\'s multiplier columns" is unsat; the exact optimum of P equals the exact optimum of the finite program over '
+      'vertex distributions (z3 Optimize) and the value of the real solve(); special cases: singleton supports with fixed '
+      'probabilities (sample average), single scenario without expectation information vs the compiled ro model.',
+      'Trusted as C03. Blocks with more than 60 local columns are stretch obligations.',
+      'SMT exists-forall LRA projection per block + exact LRA optimisation',
+      'DESIGN.md section 4 C04')
